@@ -1055,6 +1055,50 @@ func (s *service) getValidators(txes ...dbft.Transaction[util.Uint256]) []dbft.P
 				return
 			}
 		}""")])]),
+ # batch 11: variants for the rules of round 11
+ ("r12-dropcandidate-cache-first", ["C01", "C05"], "dropCandidateIfZero: the cache entry dropped before the stored record",
+  [("pkg/core/native/native_neo.go", [("""	voterKey := makeVoterKey(pub.Bytes())
+	d.DeleteStorageItem(n.ID, voterKey)
+	delete(cache.gasPerVoteCache, string(voterKey[1:])) // the cache is keyed by the public key bytes, without the prefix""", """	rewardKey := makeVoterKey(pub.Bytes())
+	delete(cache.gasPerVoteCache, string(rewardKey[1:])) // the cache is keyed by the public key bytes, without the prefix
+	d.DeleteStorageItem(n.ID, rewardKey)""")])]),
+ ("r12-find-value-concat-local", ["C09"], "storage Iterator.Value: the full key through a local",
+  [("pkg/core/interop/storage/find.go", [("""		key = slices.Concat(s.prefix, key)""", """		full := slices.Concat(s.prefix, key)
+		key = full""")])]),
+ ("r12-groups-arevalid-range-value", ["C16", "C15"], "Groups.AreValid: the signature loop over the values",
+  [("pkg/smartcontract/manifest/group.go", [("""		for i := range g {
+			err := g[i].IsValid(h)
+			if err != nil {
+				return err
+			}
+		}""", """		for _, grp := range g {
+			if err := grp.IsValid(h); err != nil {
+				return err
+			}
+		}""")])]),
+ ("r12-signer-global-eq-form", ["C17", "C15"], "Signer.DecodeBinary: the Global test written with an early accept",
+  [("pkg/core/transaction/signer.go", [("""	if c.Scopes&Global != 0 && c.Scopes != Global {""", """	if hasGlobal := c.Scopes&Global != 0; hasGlobal && !(c.Scopes == Global) {""")])]),
+ ("r12-deser-integer-limit-const", ["C17", "C12"], "stack item decoder: the Integer limit through a local constant",
+  [("pkg/vm/stackitem/serialization.go", [("""		data := r.ReadVarBytes(bigint.MaxBytesLen)""", """		const maxIntegerBody = bigint.MaxBytesLen
+		data := r.ReadVarBytes(maxIntegerBody)""")])]),
+ ("r12-resettransfers-flag-renamed", ["C02"], "resetTransfers: the per-account flag renamed",
+  [("pkg/core/blockchain.go", [rn("removeFollowing", "dropRestOfAccount")])]),
+ ("r12-newtx-canonical-helper-order", ["C17", "C07"], "NewTransactionFromBytes: the size set before the comparison",
+  [("pkg/core/transaction/transaction.go", [("""	cw := sameBytesWriter{expected: b}
+	w := io.NewBinWriterFromIO(&cw)
+	tx.EncodeBinary(w)
+	if w.Err != nil || cw.differs || len(cw.expected) != 0 {
+		return nil, ErrNonCanonicalEncoding
+	}
+	tx.size = len(b)
+	return tx, nil""", """	tx.size = len(b)
+	check := sameBytesWriter{expected: b}
+	enc := io.NewBinWriterFromIO(&check)
+	tx.EncodeBinary(enc)
+	if enc.Err != nil || check.differs || len(check.expected) != 0 {
+		return nil, ErrNonCanonicalEncoding
+	}
+	return tx, nil""")])]),
 ]
 
 out = "/verif/benign"
